@@ -29,7 +29,7 @@ theorem opC_range {ds : DSetData} (hv : ValidPartialSet ds) {i x y : Nat} (_hi :
 
 /-- the comparison loop on a part of `T`, if it ends with a non-zero verdict, runs
     identically on `T` -/
-theorem cmpLoop_mono {ds T : DSetData} (hv : ValidPartialSet ds) (hT : ValidSet T)
+theorem cmpLoop_mono {ds T : DSetData} (hv : ValidPartialSet ds) (hT : ValidPartialSet T)
     (hp : PartOf ds T) :
     ∀ (l l' : List (Nat × Nat)) (r : Renum) (v : Int),
     (∀ p, p ∈ l → p.2 ≤ ds.dim ∧ 1 ≤ p.1 ∧ p.1 ≤ ds.size) →
@@ -61,7 +61,7 @@ theorem cmpLoop_mono {ds T : DSetData} (hv : ValidPartialSet ds) (hT : ValidSet 
           have hagree := hp.agree i od hi o1 o2 hne
           have hT1 : opC T i od = .ok (ds.opU i od) := by
             rw [← hagree]
-            exact opC_valid hT.toPartial hiT o1 (Nat.le_trans o2 hp.size_le)
+            exact opC_valid hT hiT o1 (Nat.le_trans o2 hp.size_le)
           rw [hT1]
           simp only
           rw [if_neg hne]
@@ -78,7 +78,7 @@ theorem cmpLoop_mono {ds T : DSetData} (hv : ValidPartialSet ds) (hT : ValidSet 
                   have hagree2 := hp.agree i d hi hd1 hd2 hne2
                   have hT2 : opC T i d = .ok (ds.opU i d) := by
                     rw [← hagree2]
-                    exact opC_valid hT.toPartial hiT hd1 (Nat.le_trans hd2 hp.size_le)
+                    exact opC_valid hT hiT hd1 (Nat.le_trans hd2 hp.size_le)
                   rw [hT2]
                   simp only
                   rw [if_neg hne2]
@@ -98,7 +98,7 @@ theorem cmpLoop_mono {ds T : DSetData} (hv : ValidPartialSet ds) (hT : ValidSet 
       · cases h
     · cases h
 
-theorem compare_mono {ds T : DSetData} (hv : ValidPartialSet ds) (hT : ValidSet T)
+theorem compare_mono {ds T : DSetData} (hv : ValidPartialSet ds) (hT : ValidPartialSet T)
     (hp : PartOf ds T) {d0 maxSize : Nat} {v : Int}
     (h : compareRenumberedFrom ds d0 maxSize = .ok v) (hv0 : v ≠ 0) :
     compareRenumberedFrom T d0 maxSize = .ok v := by
@@ -119,10 +119,11 @@ theorem compare_mono {ds T : DSetData} (hv : ValidPartialSet ds) (hT : ValidSet 
     · cases h
   · cases h
 
-/-- every start chamber compares ≥ 0: no breadth-first renumbering of `T` is smaller
-    than `T` itself (as decided by the generator's own comparison) -/
+/-- every start chamber other than 1 compares ≥ 0: no breadth-first renumbering of `T`
+    from another chamber is smaller than `T` itself (as decided by the generator's own
+    comparison; the renumbering from chamber 1 is `T` itself when `T` is `Orderly`) -/
 def Canonical (T : DSetData) (maxSize : Nat) : Prop :=
-  ∀ d0, 1 ≤ d0 → d0 ≤ T.size → ∀ v, compareRenumberedFrom T d0 maxSize = .ok v → 0 ≤ v
+  ∀ d0, 2 ≤ d0 → d0 ≤ T.size → ∀ v, compareRenumberedFrom T d0 maxSize = .ok v → 0 ≤ v
 
 /-- chambers are numbered in the order of their first occurrence in the row-major table:
     every number between 2 and an entry occurs at an earlier position -/
@@ -130,33 +131,77 @@ def Orderly (T : DSetData) : Prop :=
   ∀ i d, i ≤ T.dim → 1 ≤ d → d ≤ T.size → ∀ v, 2 ≤ v → v < T.opU i d →
     ∃ i' d', i' ≤ T.dim ∧ 1 ≤ d' ∧ d' ≤ T.size ∧ Before (i', d') (i, d) ∧ T.opU i' d' = v
 
+theorem getC_false_put {irs : Array Bool} {k d : Nat} (h : getC irs k = .ok false) :
+    getC (irs.setIfInBounds d false) k = .ok false := by
+  obtain ⟨hk, hv⟩ := getC_ok h
+  unfold getC
+  rw [Array.getElem?_setIfInBounds]
+  by_cases hdk : d = k
+  · subst hdk; rw [if_pos rfl, if_pos hk]
+  · rw [if_neg hdk, Array.getElem?_eq_getElem hk, hv]
+
 theorem canonLoop_not_none {ds T : DSetData} {maxSize : Nat} (hv : ValidPartialSet ds)
     (hT : ValidSet T) (hp : PartOf ds T) (hc : Canonical T maxSize) :
     ∀ (l : List Nat) (irs : Array Bool) (rc : Option (Array Bool)),
-    (∀ d, d ∈ l → 1 ≤ d ∧ d ≤ ds.size) → canonLoop ds maxSize l irs = .ok rc → rc ≠ none := by
+    (∀ d, d ∈ l → 1 ≤ d ∧ d ≤ ds.size) → getC irs 1 = .ok false →
+    canonLoop ds maxSize l irs = .ok rc → rc ≠ none := by
   intro l
   induction l with
-  | nil => intro irs rc _ h; simp only [canonLoop] at h; cases h; simp
+  | nil => intro irs rc _ _ h; simp only [canonLoop] at h; cases h; simp
   | cons d l ih =>
-    intro irs rc hl h
+    intro irs rc hl h1 h
     obtain ⟨hd1, hd2⟩ := hl d (by simp)
     have hl' : ∀ d, d ∈ l → 1 ≤ d ∧ d ≤ ds.size := fun x hx => hl x (by simp [hx])
     simp only [canonLoop] at h
     split at h
-    · exact ih _ _ hl' h
-    · split at h
+    · exact ih _ _ hl' h1 h
+    · rename_i htrue
+      have hd2' : 2 ≤ d := by
+        apply Classical.byContradiction
+        intro hlt
+        have : d = 1 := by omega
+        subst this
+        rw [h1] at htrue
+        cases htrue
+      split at h
       · rename_i diff hdiff
         split at h
         · rename_i hneg
           exfalso
-          have := compare_mono hv hT hp hdiff (by omega)
-          have := hc d hd1 (Nat.le_trans hd2 hp.size_le) diff this
+          have := compare_mono hv hT.toPartial hp hdiff (by omega)
+          have := hc d hd2' (Nat.le_trans hd2 hp.size_le) diff this
           omega
         · split at h
           · split at h
-            · exact ih _ _ hl' h
+            · rename_i irs' hput
+              rw [(putC_ok hput).2] at h
+              exact ih _ _ hl' (getC_false_put h1) h
             · cases h
-          · exact ih _ _ hl' h
+          · exact ih _ _ hl' h1 h
+      · cases h
+    · cases h
+
+theorem canonLoop_keep_false (ds : DSetData) (maxSize : Nat) {k : Nat} :
+    ∀ (l : List Nat) (irs irs' : Array Bool), getC irs k = .ok false →
+    canonLoop ds maxSize l irs = .ok (some irs') → getC irs' k = .ok false := by
+  intro l
+  induction l with
+  | nil => intro irs irs' h1 h; simp only [canonLoop] at h; cases h; exact h1
+  | cons d l ih =>
+    intro irs irs' h1 h
+    simp only [canonLoop] at h
+    split at h
+    · exact ih _ _ h1 h
+    · split at h
+      · split at h
+        · cases h
+        · split at h
+          · split at h
+            · rename_i irs1 hput
+              rw [(putC_ok hput).2] at h
+              exact ih _ _ (getC_false_put h1) h
+            · cases h
+          · exact ih _ _ h1 h
       · cases h
     · cases h
 
@@ -176,10 +221,11 @@ theorem grow_partOf {ds T : DSetData} (hv : ValidPartialSet ds) (hp : PartOf ds 
 theorem childFor_complete {dim maxSize : Nat} {s : GenState} {T : DSetData} {i d : Nat}
     (hs : GInv dim maxSize s) (hnext : s.next = some (i, d)) (hT : ValidSet T)
     (hf : FarCommute T) (ho : Orderly T) (hc : Canonical T maxSize) (hTsz : T.size ≤ maxSize)
-    (hp : PartOf s.dset T) :
+    (hp : PartOf s.dset T) (hirs1 : getC s.isRemapStart 1 = .ok false) :
     d ≤ T.opU i d ∧ T.opU i d ≤ maxSize ∧ T.opU i d ≤ s.dset.size + 1 ∧
     (¬ s.dset.size < T.opU i d → s.dset.opU i (T.opU i d) = 0) ∧
-    ∃ c, childFor maxSize s i d (T.opU i d) = .ok (some c) ∧ PartOf c.dset T := by
+    ∃ c, childFor maxSize s i d (T.opU i d) = .ok (some c) ∧ PartOf c.dset T ∧
+      getC c.isRemapStart 1 = .ok false := by
   obtain ⟨hi, hd1, hd2, hzd, hpre⟩ := hs.next_some i d hnext
   have hidim : i ≤ s.dset.dim := by rw [hs.dim_eq]; exact hi
   have hiT : i ≤ T.dim := by rw [hp.dim_eq]; exact hidim
@@ -281,18 +327,25 @@ theorem childFor_complete {dim maxSize : Nat} {s : GenState} {T : DSetData} {i d
     · have : ds2.size = 1 := h
       omega
   obtain ⟨rc, hrc⟩ := checkCanonicity_total hinv.valid hinv.linked hsz2 (irs := irs0) hinv.irs
+  have hirs0 : getC irs0 1 = .ok false := by
+    rcases hg with ⟨hlt, _, _, rfl⟩ | ⟨_, _, rfl⟩
+    · obtain ⟨hk, hv'⟩ := getC_ok hirs1
+      unfold getC
+      rw [Array.getElem?_setIfInBounds, if_neg (by have := hs.size_pos; omega),
+        Array.getElem?_eq_getElem hk, hv']
+    · exact hirs1
   have hrcne := canonLoop_not_none hv2 hT hp2 hc _ irs0 rc (by
     intro x hx
     simp only [List.mem_map, List.mem_range] at hx
     obtain ⟨a, ha, rfl⟩ := hx
-    omega) hrc
+    omega) hirs0 hrc
   rw [hrc]
   cases rc with
   | none => exact absurd rfl hrcne
   | some irs =>
     simp only
     rw [hnx]
-    exact ⟨_, rfl, hp2⟩
+    exact ⟨_, rfl, hp2, canonLoop_keep_false _ _ _ _ _ hirs0 hrc⟩
 
 /-! ### the branch is kept by the loop -/
 
@@ -390,16 +443,16 @@ theorem complete_partOf_eq {ds T : DSetData} (hv : ValidSet ds) (hT : ValidSet T
 theorem exists_leaf {dim maxSize : Nat} {T : DSetData} (hT : ValidSet T) (hf : FarCommute T)
     (hcon : Connected T) (ho : Orderly T) (hc : Canonical T maxSize) (hTsz : T.size ≤ maxSize) :
     ∀ (n : Nat) (s : GenState), height maxSize (.st s) ≤ n → GInv dim maxSize s →
-    PartOf s.dset T →
+    PartOf s.dset T → getC s.isRemapStart 1 = .ok false →
     ∃ t, BT.Reach (problem dim maxSize) (.st s) (.st t) ∧ t.next = none ∧ t.dset = T := by
   intro n
   induction n with
   | zero =>
-    intro s hh _ _
+    intro s hh _ _ _
     simp only [height] at hh
     omega
   | succ n ih =>
-    intro s hh hs hp
+    intro s hh hs hp hirs1
     cases hnext : s.next with
     | none =>
       refine ⟨s, BT.Reach.refl _, hnext, ?_⟩
@@ -414,8 +467,8 @@ theorem exists_leaf {dim maxSize : Nat} {T : DSetData} (hT : ValidSet T) (hf : F
       exact complete_partOf_eq hvs hT hcon hp hs.size_pos
     | some pr =>
       obtain ⟨i, d⟩ := pr
-      obtain ⟨hge, hmax, hsucc, hfree, c, hfor, hpc⟩ :=
-        childFor_complete hs hnext hT hf ho hc hTsz hp
+      obtain ⟨hge, hmax, hsucc, hfree, c, hfor, hpc, hirsc⟩ :=
+        childFor_complete hs hnext hT hf ho hc hTsz hp hirs1
       obtain ⟨hi, hd1, hd2, _, _⟩ := hs.next_some i d hnext
       have hidim : i ≤ s.dset.dim := by rw [hs.dim_eq]; exact hi
       -- c is among the children
@@ -447,8 +500,15 @@ theorem exists_leaf {dim maxSize : Nat} {T : DSetData} (hT : ValidSet T) (hf : F
       · cases h
       · injection hcc with hcc
         subst hcc
-        obtain ⟨t, hr, ht1, ht2⟩ := ih c (by omega) hinvc hpc
+        obtain ⟨t, hr, ht1, ht2⟩ := ih c (by omega) hinvc hpc hirsc
         exact ⟨t, BT.Reach.step hmemc hr, ht1, ht2⟩
+
+theorem rootState_irs1 (dim : Nat) {maxSize : Nat} (h : 1 ≤ maxSize) :
+    getC (rootState dim maxSize).isRemapStart 1 = .ok false := by
+  show getC (Array.replicate (maxSize + 1) false) 1 = .ok false
+  unfold getC
+  have hk : 1 < (Array.replicate (maxSize + 1) false).size := by simp; omega
+  rw [Array.getElem?_eq_getElem hk, Array.getElem_replicate]
 
 /-- **Every orderly canonical D-set is emitted**: the orderly-generation pruning never cuts
     the branch leading to a complete connected D-set `T` with commuting far operations
@@ -465,7 +525,7 @@ theorem canonical_emitted {dim maxSize : Nat} {T : DSetData} (hdim : 1 ≤ dim) 
     intro i d _ _ _ hne
     exact absurd (getD_replicate_zero _ _) hne
   obtain ⟨t, hr, ht1, ht2⟩ := exists_leaf hT hf hcon ho hc hTsz _ (rootState dim maxSize)
-    (Nat.le_refl _) (rootState_inv dim maxSize) hp
+    (Nat.le_refl _) (rootState_inv dim maxSize) hp (rootState_irs1 dim (by omega))
   rw [dsets_eq_dfs, hroot]
   apply List.mem_filterMap.2
   refine ⟨.st t, ?_, ?_⟩
